@@ -5,10 +5,16 @@ import ast
 from ..cfg import CFG
 from ..core import (AnalysisError, body_nodes, call_name, dotted, is_self_attr, key_text, kwarg,
                     names_in, params, stmts_of, unparse)
+from ..inline import inline_helpers
+from ..normal import inline_temps
 
 SIM = 'tenpy/simulations/simulation.py'
 
 A, J, CM = 'absent', 'unloadable', 'complete'  # J: marker text file or partially written file
+
+
+# private helpers the crash model reasons about itself (everything else is inlined)
+KNOWN_HELPERS = ('_save_to_file', )
 
 
 class _Unknown(Exception):
@@ -22,7 +28,10 @@ class CrashModel:
         self.prog = prog
         self.rep = rep
         self.m = prog.module(SIM)
-        self.f = self.m.func(func)
+        f0 = self.m.func(func)
+        # helpers the model does not know by name are inlined ("extract method" undone)
+        f1, self.inlined = inline_helpers(f0, func, self.m, prog, known=KNOWN_HELPERS)
+        self.f = inline_temps(f1, names_only=True) if self.inlined else f0
         self.config = config or {}
         self.alias = {}  # local name -> 'out' | 'bak'
         for st in stmts_of(self.f):
